@@ -128,8 +128,8 @@ class RngSeam:
 
     # -- shuffle / permutation ---------------------------------------------
     def _perm(self, n):
-        if n > 6:
-            raise HarnessError("RNG seam: permutation of %d elements is beyond the enumerated bound (6)" % n)
+        if n > getattr(self, "perm_bound", 6):
+            raise HarnessError("RNG seam: permutation of %d elements is beyond the enumerated bound (%d)" % (n, getattr(self, "perm_bound", 6)))
         rem = list(range(n))
         out = []
         for t in range(n):
@@ -219,10 +219,12 @@ _FORBIDDEN = ("randn", "uniform", "normal", "random_integers", "ranf", "sample",
 
 
 @contextlib.contextmanager
-def rng_seam(chooser):
-    """Replace the legacy numpy.random entry points by the seam; any other RNG entry point is a harness error."""
+def rng_seam(chooser, perm_bound=6):
+    """Replace the legacy numpy.random entry points by the seam; any other RNG entry point is a harness error.
+    perm_bound: largest permutation that may be drawn (6 where every permutation is enumerated; larger only with a fixed chooser)."""
     import numpy as np
     seam = RngSeam(chooser)
+    seam.perm_bound = perm_bound
     saved = {}
 
     def forbid(name):
